@@ -1,6 +1,6 @@
 CHECK = {
     "id": "C10",
-    "level": "exploration",
+    "level": "exploration",  # the schedules part is model checking of the implementation; the level names the weaker part
     "engine": "E3",
     "technique": "bounded-exhaustive enumeration of subgrid layouts x boundary mixes x task orders x initial states, "
                  "cell-by-cell comparison with the undivided grid and a plain sequential reference execution of the sweeps",
@@ -12,12 +12,14 @@ CHECK = {
                   "layout is executed in four (quick) or five (thorough) dependency respecting sequential task orders; each result is compared cell "
                   "by cell in global cell order with the undivided grid and with a reference that calls the per-face "
                   "functions of the real Hydro object in plain loops over one global array. Repeating an order must "
-                  "reproduce the state bit for bit. The schedule dimension (thread interleavings of the real loop) is "
-                  "explored by the scheduler engine with hsd::state_in_global_cell_order; it is not part of this harness.",
-    "level_note": "Tolerance 1e-13*(|value before| + sum |face flux|*dt) + 1e-300 per cell and conserved variable; "
+                  "reproduce the state bit for bit. The schedule dimension (thread interleavings of the real loop, 2-3 threads, deviation bound 1, "
+                  "14 layouts) is explored by part 'schedules' (engine E1 on the real do_simulation loop).",
+    "level_note": "Every explored thread schedule of the real hydro loop (engine E1, same harness as C07) must give the same cell states as the default schedule to 1e-13. Tolerance 1e-13*(|value before| + sum |face flux|*dt) + 1e-300 per cell and conserved variable; "
                   "primitive variables are checked to be exactly those of the conserved ones.",
     "quick_deadline": 90,
     "thorough_deadline": 900,
-    "parts": [{"name": "layout", "bin": "c10_layout"}],
+    "parts": [
+        {"name": "schedules", "bin": "c07_hydroloop", "args": ["--mode", "1"], "share": 0.6},{"name": "layout", "bin": "c10_layout"}],
     "assumptions": [],
+    "uses_parts": ["C07"],
 }
